@@ -16,6 +16,11 @@ def Cc.isSet (c : Cc) (t : CcType) : Bool := ebitTest c.mask t.idx
 def Cc.setMask (c : Cc) (t : CcType) (v : Bool) : Cc :=
   { c with mask := if v then ebitSet c.mask t.idx else ebitClr c.mask t.idx }
 
+/-- assignments to the three `String` members -/
+def Cc.setPriv (c : Cc) (v : Bytes) : Cc := { c with priv := v }
+def Cc.setNoCache (c : Cc) (v : Bytes) : Cc := { c with noCache := v }
+def Cc.setOther (c : Cc) (v : Bytes) : Cc := { c with other := v }
+
 /-- ASCII lower-casing (`SBuf::caseCmp` / `CaseInsensitiveSBufHash` in the C locale) -/
 def lowerC (c : UInt8) : UInt8 := if 65 ≤ c ∧ c ≤ 90 then c + 32 else c
 
@@ -86,24 +91,24 @@ def applyDirective (c : Cc) (type : CcType) (p : Option Bytes) (vlen : Nat) (tex
   | .private_ =>
     let c1 :=
       match p with
-      | none => { c with priv := [] }                       -- `private_.clean()`
+      | none => c.setPriv []                                -- `private_.clean()`
       | some start =>
         match parseQuoted start vlen with
-        | some v => { c with priv := c.priv ++ v }          -- `private_.append(temp)`
+        | some v => c.setPriv (c.priv ++ v)                 -- `private_.append(temp)`
         | none => c
     c1.setMask type true   -- "always remember the 'private' part"
   | .noCache =>
     match p with
-    | none => { c.setMask type true with noCache := [] }
+    | none => (c.setMask type true).setNoCache []
     | some start =>
       match parseQuoted start vlen with
-      | some v => { c.setMask type true with noCache := c.noCache ++ v }
+      | some v => (c.setMask type true).setNoCache (c.noCache ++ v)
       | none => c
   | .public_ | .noStore | .noTransform | .mustRevalidate | .proxyRevalidate | .onlyIfCached | .immutable =>
     c.setMask type true
   | .other =>
     -- `if (other.size()) other.append(", "); other.append(item, ilen);`
-    { c with other := (if c.other.length ≠ 0 then c.other ++ [44, 32] else c.other) ++ text }
+    c.setOther ((if c.other.length ≠ 0 then c.other ++ [44, 32] else c.other) ++ text)
   | .enumEnd => c   -- `default:`
 
 /-- body of the loop for one item -/
